@@ -335,6 +335,13 @@ class AppEnv:
                        if mf.content_type == 'video' and not mf.encrypted)
             stream.timing_reference = ref.as_stream_timing_reference()
             models.db.session.commit()
+            # ... and, as rows written by an earlier release, their stored index says so
+            import copy
+            for mf in stream.media_files:
+                rep = copy.deepcopy(dict(mf.rep))
+                rep['version'] = 3
+                mf.rep = rep
+            models.db.session.commit()
             models.db.session.remove()
 
     def add_dotted_names_stream(self, directory: str = 'dots') -> int:
